@@ -17,7 +17,14 @@ class Universe(object):
         return [(n, f()) for n, f in B.SEEDS]
 
     def edits(self, spec):
-        return B.edits(spec, self.seed)
+        out = B.edits(spec, self.seed)
+        # descriptions the documented rules REFUSE (additional variants on an image that is not unified): the property speaks of
+        # what the library agrees to write - if it ever agrees, the image must come back as written; today it is refused
+        for i, s in enumerate(spec["images"]):
+            if not s["unified"] and not s["additional_variants"]:
+                out.append(["unified", i, False, ["Client"]])
+                out.append(["unified", i, False, ["Client", "Server"]])
+        return out
 
     apply = staticmethod(B.apply_spec)
     canon = staticmethod(B.canon)
